@@ -368,8 +368,11 @@ impl Env {
 // ---------------------------------------------------------------- one request
 pub struct Request {
     pub user: usize,    // index into USERS (1 root/admin, 2 ed/editor, 3 bob/viewer)
-    pub session: bool,  // execute_program(Some(sid), None, ..) vs execute_program(None, Some(kg), ..)
-    pub cur: usize,     // index into KGS
+    /// the KG (index into KGS) the request's session is bound to; None = no session id
+    pub bound: Option<usize>,
+    /// the KG given explicitly with the request; None = execute_program(Some(sid), None, ..).
+    /// Three shapes: session only (production), explicit only, and BOTH (drawn independently).
+    pub explicit: Option<usize>,
     pub program: String,
 }
 
@@ -397,11 +400,12 @@ pub fn run_case(rt: &tokio::runtime::Runtime, setup: &Setup, rq: &Request) -> Ou
     let id = AuthIdentity { username: USERS[rq.user].to_string(), role };
     // the session: bound to the KG directly (production binds it through create_session_with_auth,
     // which requires some role; binding directly also covers roles revoked after the session started)
-    let sid = if rq.session {
-        let start = if KGS[rq.cur] == "_internal" || !setup.existing.contains(&rq.cur) { "default" } else { KGS[rq.cur] };
+    let cur = rq.explicit.or(rq.bound).expect("a request names its KG through the session or explicitly");
+    let sid = if let Some(b) = rq.bound {
+        let start = if KGS[b] == "_internal" || !setup.existing.contains(&b) { "default" } else { KGS[b] };
         let sid = env.h.create_session(start).expect("create_session");
-        if start != KGS[rq.cur] {
-            env.h.session_manager().switch_kg(&sid, KGS[rq.cur]).expect("switch_kg");
+        if start != KGS[b] {
+            env.h.session_manager().switch_kg(&sid, KGS[b]).expect("switch_kg");
         }
         Some(sid)
     } else {
@@ -410,7 +414,7 @@ pub fn run_case(rt: &tokio::runtime::Runtime, setup: &Setup, rq: &Request) -> Ou
     let (w0, auth0, full0) = env.world();
     let res = rt.block_on(env.h.execute_program(
         sid.as_ref(),
-        if rq.session { None } else { Some(KGS[rq.cur].to_string()) },
+        rq.explicit.map(|e| KGS[e].to_string()),
         rq.program.clone(),
         Some(&id),
     ));
@@ -450,8 +454,8 @@ pub fn run_case(rt: &tokio::runtime::Runtime, setup: &Setup, rq: &Request) -> Ou
         "(Req {} {} {} {} {} {})",
         coq_role(&role),
         coq_n(rq.user as u128),
-        coq_bool(rq.session),
-        coq_n(rq.cur as u128),
+        coq_opt(rq.bound.map(|b| coq_n(b as u128))),
+        coq_n(cur as u128),
         whole,
         coq_list(&lines)
     );
@@ -699,7 +703,7 @@ pub fn drive(p: &Params) {
     let mut sink = Sink::new(&args, p.header, p.case_ty, p.checker, 100);
     let rt = tokio::runtime::Builder::new_multi_thread().worker_threads(2).enable_all().build().unwrap();
 
-    let emit = |sink: &mut Sink, rng: &mut Rng, user: usize, session: bool, cur: usize, combo: u64, program: &str, fixed: bool| {
+    let emit = |sink: &mut Sink, rng: &mut Rng, user: usize, session: bool, cur: usize, both: Option<usize>, combo: u64, program: &str, fixed: bool| {
         if !sink.wants(sink.next_idx()) {
             // keep the PRNG stream identical whether or not the case is wanted
             let _ = gen_setup(rng, user, combo, p.internal_bias);
@@ -715,12 +719,16 @@ pub fn drive(p: &Params) {
                 setup.acls.push((0, user, "owner"));
             }
         }
-        let rq = Request { user, session, cur, program: program.to_string() };
+        let rq = match both {
+            Some(b) => Request { user, bound: Some(b), explicit: Some(cur), program: program.to_string() },
+            None if session => Request { user, bound: Some(cur), explicit: None, program: program.to_string() },
+            None => Request { user, bound: None, explicit: Some(cur), program: program.to_string() },
+        };
         let out = run_case(&rt, &setup, &rq);
         let nlines = out.line_kinds.len();
         let has_err = out.line_kinds.iter().any(|k| k.is_none());
         let nonadmin = user != 1;
-        let mentions_internal = program.contains("_internal") || program.contains("users") || cur == 0;
+        let mentions_internal = program.contains("_internal") || program.contains("users") || cur == 0 || both == Some(0);
         let mut tags: Vec<&str> = vec![];
         tags.push(match out.dec {
             0 => "denied",
@@ -740,13 +748,13 @@ pub fn drive(p: &Params) {
         if mentions_internal {
             tags.push("names-internal");
         }
-        tags.push(if session { "session" } else { "explicit-kg" });
+        tags.push(if both.is_some() { "session+explicit-kg" } else if session { "session" } else { "explicit-kg" });
         tags.push(USERS[user]);
         for k in out.line_kinds.iter().flatten() {
             sink.tally(&format!("kind:{k}"));
         }
         sink.tally(&format!("lines:{}", nlines.min(8)));
-        let key_text = format!("{}|{}|{}|{}|{:?}|{}", USERS[user], session, cur, combo, setup.acls, program);
+        let key_text = format!("{}|{}|{}|{:?}|{}|{:?}|{}", USERS[user], session, cur, both, combo, setup.acls, program);
         let nontrivial = match p.ctor {
             // authorization mattered: a non-admin request that was refused or that changed stored state
             "C27Case" => nonadmin && (out.dec == 0 || out.changed),
@@ -756,7 +764,7 @@ pub fn drive(p: &Params) {
             _ => nlines >= 2 && ((has_err && out.dec != 0) || (!has_err && out.changed)),
         };
         let desc = serde_json::json!({
-            "user": USERS[user], "session": session, "current_kg": KGS[cur], "acls": setup.acls.iter().map(|(k,u,r)| format!("{}:{}:{}", KGS[*k], USERS[*u], r)).collect::<Vec<_>>(),
+            "user": USERS[user], "session": session || both.is_some(), "current_kg": KGS[cur], "session_bound_to": both.or(if session { Some(cur) } else { None }).map(|b| KGS[b]), "explicit_kg": if both.is_some() || !session { Some(KGS[cur]) } else { None }, "acls": setup.acls.iter().map(|(k,u,r)| format!("{}:{}:{}", KGS[*k], USERS[*u], r)).collect::<Vec<_>>(),
             "existing": setup.existing.iter().map(|k| KGS[*k]).collect::<Vec<_>>(),
             "program": program, "result": out.result_text.chars().take(300).collect::<String>(),
             "whole_kind": out.whole_kind, "line_kinds": out.line_kinds,
@@ -765,7 +773,29 @@ pub fn drive(p: &Params) {
     };
 
     for (user, session, cur, combo, program) in corpus() {
-        emit(&mut sink, &mut rng, user, session, cur, combo, program, true);
+        emit(&mut sink, &mut rng, user, session, cur, None, combo, program, true);
+    }
+    // session id AND explicit KG: (user, session-bound KG, explicit KG, combo, program)
+    let both_corpus: Vec<(usize, usize, usize, u64, &str)> = vec![
+        (3, 1, 0, 1, "+t[(220,)]"),                      // viewer session on default, addressed at _internal
+        (3, 1, 0, 1, ".kg\n?users(A, B, C)"),
+        (3, 1, 0, 1, "?users(A, B, C)"),
+        (3, 1, 2, 1, "+t[(221,)]"),                      // ... addressed at a KG without a role
+        (3, 1, 2, 1, "?t(X)"),
+        (3, 1, 2, 1, "?t(X)\n+t[(222,)]"),
+        (2, 1, 2, 1 + 4 * 2, "?t(X)\n+t[(223,)]"),      // viewer on the session KG, editor on the explicit one
+        (2, 1, 2, 2 + 4 * 1, "?t(X)\n+t[(224,)]"),      // editor on the session KG, viewer on the explicit one
+        (2, 1, 2, 2 + 4 * 1, "+t[(225,)]"),
+        (2, 1, 2, 1 + 4 * 2, "+t[(226,)]\n.kg use k3"),
+        (2, 0, 2, 4 * 2, "+t[(227,)]"),                  // session (artificially) bound to _internal, explicit KG allowed
+        (2, 0, 2, 4 * 2, "?users(A, B, C)"),
+        (2, 0, 2, 4 * 2, "?t(X)"),
+        (2, 4, 2, 4 * 2, "+t[(228,)]"),                  // session bound to a missing KG
+        (2, 1, 4, 2, "+t[(229,)]"),                      // explicit KG missing
+        (1, 1, 0, 0, "?users(A, B, C)"),                 // admin
+    ];
+    for (user, bound, explicit, combo, program) in both_corpus {
+        emit(&mut sink, &mut rng, user, true, explicit, Some(bound), combo, program, true);
     }
 
     let mut produced = 0usize;
@@ -785,6 +815,16 @@ pub fn drive(p: &Params) {
         };
         let combo = round % 64; // every combination of {none, viewer, editor, owner} on default, k2, k3
         let session = rng.chance(3, 4);
+        // one request in five carries a session id AND an explicit KG, drawn independently
+        let both: Option<usize> = if rng.chance(1, 5) {
+            Some(match rng.below(10) {
+                0 => 0,
+                1 => 4,
+                _ => 1 + rng.below(3) as usize,
+            })
+        } else {
+            None
+        };
         let cur = match rng.below(20) {
             0 => 0,                       // bound to / addressed at _internal
             1 => 4,                       // a KG that does not exist
@@ -815,7 +855,7 @@ pub fn drive(p: &Params) {
             stmts.push(s);
         }
         let program = g.render(&mut rng, &stmts);
-        emit(&mut sink, &mut rng, user, session, cur, combo, &program, false);
+        emit(&mut sink, &mut rng, user, session, cur, both, combo, &program, false);
         produced += 1;
         if p.inject_errors {
             // the same program with a syntax error injected at every position
@@ -826,7 +866,7 @@ pub fn drive(p: &Params) {
                 let mut v = stmts.clone();
                 v.insert(pos, g.bad_stmt(&mut rng));
                 let program = g.render(&mut rng, &v);
-                emit(&mut sink, &mut rng, user, session, cur, combo, &program, false);
+                emit(&mut sink, &mut rng, user, session, cur, both, combo, &program, false);
                 produced += 1;
             }
         } else if rng.chance(1, 8) {
@@ -839,7 +879,7 @@ pub fn drive(p: &Params) {
                 }
                 junk.push('\n');
             }
-            emit(&mut sink, &mut rng, user, session, cur, combo, &junk, false);
+            emit(&mut sink, &mut rng, user, session, cur, both, combo, &junk, false);
             produced += 1;
         }
     }
